@@ -43,7 +43,8 @@ import json, os, subprocess, shutil, threading, random, concurrent.futures as cf
 import lib, gen, mcb_oracle as O, exact_common as X
 
 PID = "C04"
-THEOREMS = ["Properties_C04.v", "Properties_C04_trees.v", "Properties_C04_trees_tbb.v", "Properties_C02_trees.v"]
+THEOREMS = ["Properties_C04.v", "Properties_C04_trees.v", "Properties_C04_trees_tbb.v", "Properties_C02_trees.v",
+            "Properties_C04_stride.v"]
 GROUP = "c04"
 HARNESS = dict(name="c04", srcs=["mpi/c04.cpp"], mpi=True, libs=["-ltbb", "-lboost_timer", "-lboost_mpi", "-lboost_serialization"])
 MPIEXEC = ["mpiexec", "--allow-run-as-root", "--oversubscribe", "--bind-to", "none"]
